@@ -17,11 +17,11 @@ def run(ctx):
                 "maxima; states = canonical state/choice pairs")
     exe = wmmlib.build()
     if ctx.tier == "quick":
-        jobs = wmmlib.unbounded_jobs(exe, [(8, 16), (8, 32)], 3, deadline=300)
-        jobs += wmmlib.unbounded_jobs(exe, [(8, 24)], 2, deadline=300)
+        jobs = wmmlib.unbounded_jobs(exe, [(8, 16), (8, 32)], 3)
+        jobs += wmmlib.unbounded_jobs(exe, [(8, 24)], 2)
     else:
-        jobs = wmmlib.unbounded_jobs(exe, [(8, 16), (8, 32), (8, 64), (16, 32), (16, 64)], 4, deadline=900)
-        jobs += wmmlib.unbounded_jobs(exe, [(8, 24), (16, 48)], 3, deadline=900)
+        jobs = wmmlib.unbounded_jobs(exe, [(8, 16), (8, 32), (8, 64), (16, 32), (16, 64)], 4, deadline=900, budget=2400)
+        jobs += wmmlib.unbounded_jobs(exe, [(8, 24), (16, 48)], 3, deadline=900, budget=2400)
     ctx.set_deadline(200 if ctx.tier == "quick" else 3000)
     for rr in vf.run_many(jobs):
         ctx.absorb(rr, "h_queues(unbounded)")
